@@ -102,7 +102,8 @@ def main():
     for f in sorted(glob.glob(os.path.join(HERE, "refactors", "*.patch"))):
         nm = os.path.basename(f)[:-6]
         items.append((nm, f, {"kind": "benign", "expect": [],
-                              "note": "refactoring written by a sub-agent (selftest/refactors/README_%s.md)" % nm.split("_")[1]}))
+                              "note": "refactoring written by a sub-agent (selftest/refactors/README%s_%s.md)" % (
+                                  "2" if nm.startswith("ref2_") else "", nm.split("_")[1])}))
     if a.seeded:
         items = []
         for d in sorted(glob.glob(os.path.join(VERIF, "seeded", "*"))):
